@@ -307,6 +307,49 @@
 //! C-FORITER  no `break` of an enclosing loop from inside `for p in &mut it` (the advanced iterator
 //!          only exists after the loop).
 //!
+//! Added after the second red-team round (the names above keep their meaning, with these changes:
+//! C-ATTR: at most one `cfg` per statement / item (stacked ones are a conjunction the lowering would
+//! not see); `allow` / `warn` / `deny` are harmless only for `clippy::*` and `unused_unsafe` (not
+//! `overflowing_literals`, `non_upper_case_globals`, ..).  C-IMPL: associated constants / types /
+//! macros of an impl block must be today's too (`Float` constants, `Output`, `Target`); trait items
+//! other than functions and constants are refused.  C-LOCAL / C-PAT: constants and statics must be
+//! upper-case everywhere; inside macro expansions the full constant-pattern test is applied.
+//! C-MOD: lib.rs may only declare the modules it declares today; in the modules that are not read
+//! EVERY impl block, type alias, macro definition and item-position macro must be one of today's
+//! (`impl Drop for FPUControlWord`, `macro_rules! i`): an impl can hide behind an alias.)
+//!
+//! C-PIN    functions that are not translated but that translated code runs through must be, token
+//!          for token, today's: `Deref::deref` / `DerefMut::deref_mut` of StackVec and HeapVec
+//!          (behind `as_mut_ptr()`, `x[i] = e`, `iter_mut()`, `get_mut()`; `deref_mut` must also be
+//!          `deref` up to mutability), their `PartialEq::eq`, `partial_cmp`, `Ord::cmp`,
+//!          `MulAssign::mul_assign`, and `MulAssign` of Bigint.
+//! C-PTRCAST  (rule 29) a pointer cast is the identity only to `*const` / `*mut` `[bigint::]Limb`;
+//!          any other pointee, and `add` on a casted pointer, are refused.
+//! C-CONST  the global constants resolved by name (SMALLEST_POWER_OF_FIVE, LARGEST_POWER_OF_FIVE,
+//!          POWER_OF_FIVE_128, BASE10_POWERS, LIMB_BITS, LARGE_POW5, LARGE_POW5_STEP, BIGINT_LIMBS,
+//!          BIGINT_BITS) may not be the name of any parameter, local, pattern variable or closure
+//!          parameter in any file; `LIMB_BITS == 32` is only resolved statically (rule 14) when no
+//!          binding of that name is in scope and the file is bigint.rs or imports it (slow.rs).
+//!          `Self::C` is a Float constant only inside `trait Float`.
+//! C-MACRO  (rule 20) only today's macros in today's files (none in lib.rs: exit 2); a macro with
+//!          several rules must have them distinguished by their first tokens (`@word`; at most one
+//!          rule without, starting with an `ident` fragment); matchers may contain only `@`, `,`,
+//!          words and numbers besides fragments; invocation arguments only words, numbers, `as`, `,`
+//!          and `@` (no `_`, no other punctuation, no groups); a use must come after the end of the
+//!          definition.
+//! C-OPTUPD a rule 15 value may not be a tuple component (nor, as before, be bound, discarded,
+//!          wrapped or tested).
+//! C-ANY    `it.any(..)` on an iterator VARIABLE is refused (`Iterator::any` advances it); it is
+//!          `existsb` only on a temporary (`s.iter()..`).
+//! C-MUTREF a `&mut` parameter (and `self`) is its pointee in the translation and its final value is
+//!          returned under its name (rule 7): no binding of any kind may reuse its name, `p = ..`
+//!          (without `*`) is refused, and `p` may only occur as the operand of `*`, `.field`, `[i]`,
+//!          a method call, `&` or as a call argument - not be copied, moved, stored or returned.
+//! C-LIT    an integer literal must fit its type (rustc wraps it under `#[allow(overflowing_literals)]`).
+//! C-CARGO  `<src-dir>/../Cargo.toml`, when present, may not have a `path` in `[lib]`, `[[test]]`,
+//!          `[[example]]`, `[[bin]]`, `[[bench]]`, nor a `build` key; `build.rs` may not exist (exit 2).
+//! C-STALE  now also between the receiver of `map_or` and its default argument.
+//!
 //! Anything else (other statements, patterns, methods, macros, types, labelled blocks, `continue`,
 //! …) is an error, and the translator fails closed
 //! PER FUNCTION: a function that cannot be translated is omitted from the output (a comment
@@ -715,6 +758,43 @@ fn is_deref_impl(im: &syn::ItemImpl, owner: &str, name: &str) -> bool {
         && im.trait_.as_ref().map(|(_, p, _)| quote::quote!(#p).to_string().replace(' ', "") == "ops::Deref").unwrap_or(false)
 }
 
+/// C-CARGO: the manifest must not redirect what is compiled: no `[lib] path`, no build script,
+/// no `path` in a `[[test]]` / `[[example]]` / `[[bin]]` / `[[bench]]` target (a missing manifest,
+/// as in a bare copy of `src/`, redirects nothing)
+fn check_cargo(dir: &str) -> Result<(), String> {
+    let root = format!("{}/..", dir);
+    if std::path::Path::new(&format!("{}/build.rs", root)).exists() {
+        return Err("a build script `build.rs` exists".into());
+    }
+    let text = match std::fs::read_to_string(format!("{}/Cargo.toml", root)) {
+        Ok(t) => t,
+        Err(_) => return Ok(()),
+    };
+    let mut section = String::new();
+    for (i, raw) in text.lines().enumerate() {
+        let line = raw.split('#').next().unwrap_or("").trim();
+        if line.starts_with('[') {
+            section = line.chars().filter(|c| !c.is_whitespace()).collect();
+            continue;
+        }
+        let key: String = line.split('=').next().unwrap_or("").trim().trim_matches('"').to_string();
+        if !line.contains('=') {
+            continue;
+        }
+        let in_target = matches!(section.as_str(), "[lib]" | "[[test]]" | "[[example]]" | "[[bin]]" | "[[bench]]");
+        if in_target && key == "path" {
+            return Err(format!("Cargo.toml line {}: `path` in {} redirects a source file", i + 1, section));
+        }
+        if section == "[package]" && key == "build" && !line.ends_with("false") {
+            return Err(format!("Cargo.toml line {}: a build script is declared", i + 1));
+        }
+        if section == "[lib]" && (key == "proc-macro" || key == "proc_macro" || key == "plugin") {
+            return Err(format!("Cargo.toml line {}: unexpected `{}` in [lib]", i + 1, key));
+        }
+    }
+    Ok(())
+}
+
 /// how many definitions `find_fn` could have picked (more than one: refuse, rustc takes the one
 /// whose `cfg` holds)
 fn count_fn(file: &syn::File, owner: &str, name: &str) -> usize {
@@ -929,6 +1009,9 @@ fn translate(g: &Globals, tg: &Target, sig: &syn::Signature, body: &syn::Block) 
                     syn::Pat::Ident(pi) if pi.by_ref.is_none() && pi.subpat.is_none() => pi.ident.to_string(),
                     p => return err(p.span(), "unsupported parameter pattern"),
                 };
+                if check::GLOBAL_CONSTS.contains(&id.as_str()) {
+                    return err(pt.span(), format!("the parameter `{}` is spelled like a global constant that is resolved by name", id));
+                }
                 let mutref = is_mut_ref(&pt.ty);
                 let ty = cx.conv_ty(&pt.ty)?;
                 if ty == Ty::Float {
@@ -1153,6 +1236,9 @@ fn main() {
     // meaningless (exit 2); a problem in another file omits the functions of that file (and, through
     // `limb_ok`, everything built on the vector types for bigint.rs / stackvec.rs / heapvec.rs /
     // table_small.rs).
+    if let Err(e) = check_cargo(dir) {
+        fail(e);
+    }
     let known = known_lib();
     let mut file_problems: HashMap<String, String> = HashMap::new();
     {
@@ -1167,6 +1253,10 @@ fn main() {
         p.extend(check::check_modules(&lib, &modules));
         // the modules that are not read may not contain impls for the mapped types
         for m in check::declared_modules(&lib) {
+            // C-MOD: no module that is not known today
+            if !check::KNOWN_MODULES.contains(&m.as_str()) {
+                fail(format!("lib.rs: unknown module `mod {};` (its items are not checked)", m));
+            }
             if modules.contains(&m.as_str()) {
                 continue;
             }
@@ -1177,7 +1267,7 @@ fn main() {
                 if let Some(e) = check::check_file(&format!("{}.rs", m), &f, &known).first() {
                     fail(format!("{}.rs: {}", m, e));
                 }
-            } else if let Some(e) = check::check_unread(&f).first() {
+            } else if let Some(e) = check::check_unread(&format!("{}.rs", m), &f).first() {
                 fail(format!("{}.rs: {}", m, e));
             }
         }
@@ -1237,6 +1327,7 @@ fn main() {
         export_parse_float: false,
         stackvec_ok: Err("the cell-level translation (rules 28-30) is not active in this run".into()),
         heapvec_ok: Err("the translation of heapvec.rs (rule 31) is not active in this run".into()),
+        value_names: files.iter().map(|(n, f)| (n.clone(), check::value_names(f))).collect(),
     };
     for it in &files["num.rs"].items {
         if let syn::Item::Trait(t) = it {
